@@ -322,6 +322,11 @@ func c11Main(rc *RunCtx) {
 					var seen []obs
 					cc.Range(func(k ck, v *int, exp time.Time) error {
 						seen = append(seen, obs{int(k), *v})
+						// a dump callback takes its time (it packs and writes the
+						// entry): other tasks run while this shard's lock is held
+						if simrt.Choose(2) == 0 {
+							simrt.Yield(0)
+						}
 						return nil
 					})
 					ret := simrt.Tick()
